@@ -32,6 +32,7 @@ def run(ctx):
     # full vectors
     for _ in range(ctx.n(40000, 1500000)):
         strings.append(core.rand_vector("3", rng, p_absent=rng.choice([0.1, 0.4, 0.7])))
+    strings += core.singletons("3", rng, ctx.n(500, 5184))
     ctx.extra["exhaustive_part"] = "all %d base vectors (2 minor versions x 2592)" % base_n
     for i in range(0, len(strings), 200000):
         scoring.check_scores(ctx, "3", strings[i:i + 200000], "v3")
